@@ -1,7 +1,7 @@
 (* C10 — index selection follows configured codenames, components and
    architectures; compression variants form one group. *)
 From AM.Model Require Import Base Path Targets Deb822 Select Kind Download.
-From AM.Lemmas Require Import SelectLemmas DownloadLemmas.
+From AM.Lemmas Require Import SelectLemmas DownloadLemmas SelectGeneral.
 Open Scope string_scope.
 Open Scope list_scope.
 
@@ -19,6 +19,47 @@ Theorem select_debian_universe :
   (must_fetch cfg p && must_not_fetch cfg p = false).
 Proof. exact select_debian_universe_lemma. Qed.
 Print Assumptions select_debian_universe.
+
+(* ARBITRARY NAMES.  For every configuration (any number of components, any
+   architecture lists), every top-level component name c, every standard index
+   kind k (Packages / binary Release / Sources / source Release / Translation-l /
+   Contents-a / Contents-source / dep11 Components-a.yml / dep11 icons-z.tar /
+   cnf Commands-a) and every compression extension, provided the names do not
+   collide ([names_okb], decidable: c, the architectures and l / z consist of
+   lower-case letters and digits; no architecture in play is a substring of c,
+   of another architecture or of a token of the path grammar, contains "source",
+   or starts with "all" without being "all"), the same three facts hold as in
+   the closed sweep.  Nested components (main/debian-installer) stay with the
+   sweep. *)
+Theorem select_spec_general :
+  forall cfg c k e,
+  names_okb cfg c k = true -> In e exts ->
+  let p := std_path c k e in
+  (must_fetch cfg p = true -> allowed cfg (render_kpath p) = true) /\
+  (must_not_fetch cfg p = true -> allowed cfg (render_kpath p) = false) /\
+  (must_fetch cfg p && must_not_fetch cfg p = false).
+Proof. exact select_spec_general_prop. Qed.
+Print Assumptions select_spec_general.
+
+(* ... and on such names the code's string predicate IS the structural one *)
+Theorem allowed_is_structural :
+  forall cfg c k e, names_ok cfg c k -> In e exts ->
+  allowed cfg (render_kpath (std_path c k e)) = allowed_struct cfg c k.
+Proof. exact allowed_is_struct. Qed.
+Print Assumptions allowed_is_structural.
+
+(* non-vacuity: Ubuntu-ports-like names that the closed sweep does not contain *)
+Example select_spec_general_example :
+  let cfg := [{| cname := "universe"; csrc := true; carches := ["armhf"; "s390x"] |};
+              {| cname := "restricted"; csrc := false; carches := ["riscv64"] |}] in
+  names_okb cfg "universe" (KPackages "armhf") = true /\
+  names_okb cfg "multiverse" (KDep11 "ppc64el") = true /\
+  names_okb cfg "restricted" (KTranslation "de") = true /\
+  must_fetch cfg (std_path "universe" (KPackages "armhf") ".xz") = true /\
+  must_not_fetch cfg (std_path "multiverse" (KDep11 "ppc64el") ".gz") = true /\
+  (* a colliding name is outside the hypothesis, as it must be: armhf contains arm *)
+  names_okb ({| cname := "main"; csrc := false; carches := ["arm"] |} :: cfg) "universe" (KPackages "armhf") = false.
+Proof. vm_compute. repeat split; reflexivity. Qed.
 
 (* for all Release files: release files listed inside, entries with a
    non-positive (or unparsable) size and entries the predicate rejects never
